@@ -15,6 +15,7 @@ def run(ctx):
                     "structure, caps shape, termination", workers=vlib.NCPU, constants={"MaxLen": 2 if quick else 3})
     scen = [wlfam.tree_scen(rng, uniform_only=(i % 4 != 0), uncap_prob=0.35, budget=4000 if quick else 15000) for i in range(110 if quick else 1200)]
     scen += wlfam.directed_trees(rng)
+    scen += wlfam.line_scenarios(rng, quick, None if quick else wlfam.shipped_lists(ctx))
     files, cells, leaves = wlfam.run_scenarios(ctx, scen, "c04")
     verdicts, decided = wlfam.validate(ctx, files)
     ctx.evaluations = leaves
